@@ -192,9 +192,29 @@ def render_v3000(m: Mol, rng: random.Random, opts=None):
         mode = "none" if (b in fixed or b.startswith("COUNTS")) else o["split"]
         lines += split_v30(b, rng, mode)
     lines.append("M  END")
+    lines += trailer(rng, o.get("trailer", rng.random() < 0.3), n)
     nl = "\r\n" if o["crlf"] else "\n"
     text = nl.join(lines) + (nl if rng.random() < 0.8 else "")
     return text, {"opts": o, "file_index": file_index}
+
+
+def trailer(rng, on, n):
+    """what may follow `M  END` in an SD file: data items (free text, which may even quote property lines)
+    and further records; none of it belongs to the molecule"""
+    if not on:
+        return []
+    a = max(1, min(n, 1))
+    out = []
+    if rng.random() < 0.7:
+        out += ["> <COMMENT>", f"M  ISO  1 {a:3d}  13", f"M  CHG  1 {a:3d}   1", f"M  RAD  1 {a:3d}   2", ""]
+    if rng.random() < 0.5:
+        out += ["> <NAME>", "another line", ""]
+    out.append("$$$$")
+    if rng.random() < 0.5:
+        out += ["second record", "  VERIF", "", "  1  0  0  0  0  0  0  0  0  0999 V2000",
+                "    0.0000    0.0000    0.0000 C   0  4  0  0  0  0  0  0  0  0  0  0",
+                "M  ISO  1   1  13", "M  END", "$$$$"]
+    return out
 
 
 # ---------------- V2000 ----------------
@@ -286,6 +306,7 @@ def render_v2000(m: Mol, rng: random.Random, opts=None):
         list_lines = ["  1 F    2   6   7"]
     counts = f"{n:3d}{len(bond_lines):3d}{len(list_lines):3d}  0  0  0  0  0  0  0999 V2000"
     lines = ["name", "  VERIF   0101010101", "V3000 comment", counts] + atom_lines + bond_lines + list_lines + props + ["M  END"]
+    lines += trailer(rng, o.get("trailer", rng.random() < 0.3), n)
     nl = "\r\n" if o["crlf"] else "\n"
     text = nl.join(lines) + (nl if rng.random() < 0.8 else "")
     return text, {"opts": dict(o, use_codes=use_codes)}
